@@ -100,6 +100,7 @@ class PathState:
         self.prefix = list(prefix)
         self.decisions = []
         self.pending = []          # alternative prefixes discovered on this run
+        self.reached = set()       # line numbers of the return / raise statements of the function under verification
         self.solver = z3.Solver()
         self.solver.set('timeout', FEAS_TIMEOUT_MS)
         self.pc = []               # permanent conjuncts (z3 terms)
